@@ -351,6 +351,23 @@ pub fn long_unit_grammar() -> Vec<Vec<BitOp>> {
         word_ops(0x7FF, 11),
     ];
     let mut out = Vec::new();
+    // burst cycles (U1^a U2^b)^60
+    for a in &units {
+        for b in &units {
+            for (na, nb) in [(1usize, 1usize), (2, 1), (3, 1), (4, 2), (5, 1), (8, 3), (1, 2), (2, 2), (4, 1), (12, 2), (16, 1)] {
+                let mut v: Vec<BitOp> = Vec::new();
+                for _ in 0..60 {
+                    for _ in 0..na { v.extend(a.iter().copied()); }
+                    for _ in 0..nb { v.extend(b.iter().copied()); }
+                }
+                v.extend(word_ops(x | 1, 11));
+                v.extend(word_ops(x, 11));
+                v.extend(word_ops(x ^ 0x004, 11));
+                v.extend(word_ops(x, 11));
+                out.push(v);
+            }
+        }
+    }
     for a in &units {
         for b in &units {
             for (i, j) in [(1100usize, 1100usize), (2200, 1100), (1100, 2200)] {
